@@ -3,6 +3,8 @@ package main
 import (
 	"fmt"
 	"strings"
+
+	defaultrolemanager "github.com/casbin/casbin/v2/rbac/default-role-manager"
 )
 
 func init() { registry["C19"] = runC19 }
@@ -13,7 +15,7 @@ func runC19(c *Ctx) {
 		depth = 4
 	}
 	c.Exhaustive = true
-	c.Rule = fmt.Sprintf("all operation logs of <= %d *Self calls (Add/Remove/RemoveFiltered/Update/UpdatePolicies/Clear on p and g, with repeated and overlapping batches) applied to three real DistributedEnforcer replicas with different persist predicates (always / never / nil), each with its own recording adapter: affected values, adapter logs, listed rules, links and decisions vs the Lean model; on the implementation: every log is applied twice to each replica (the second pass must change nothing and report nothing affected), replicas agree on affected values, rules, links and decisions, only the always-replica touches its adapter, every log is run 3 times per replica for determinism, the third time with a dispatcher attached (which must receive nothing); updates of a rule to itself must leave the replica's memory (index included) unchanged; plus seeded random logs to length 30; non-trivial = a log with an affected and an unaffected call; distinct = log", depth)
+	c.Rule = fmt.Sprintf("all operation logs of <= %d *Self calls (Add/Remove/RemoveFiltered/Update/UpdatePolicies/Clear on p and g, with repeated and overlapping batches) applied to three real DistributedEnforcer replicas with different persist predicates (always / never / nil), each with its own recording adapter: affected values, adapter logs, listed rules, links and decisions vs the Lean model; on the implementation: every log is applied twice to each replica (the second pass must change nothing and report nothing affected), replicas agree on affected values, rules, links and decisions, only the always-replica touches its adapter, every log is run 3 times per replica for determinism, the third time with a dispatcher attached (which must receive nothing); updates of a rule to itself must leave the replica's memory (index included) unchanged; the second run is on a replica whose role manager was installed by SetRoleManager; a replica loaded under subject priority (rules re-ordered by the load) must find every rule by value; plus seeded random logs to length 30; non-trivial = a log with an affected and an unaffected call; distinct = log", depth)
 	P := [][]string{{"alice", "data1", "read"}, {"admin", "data2", "write"}, {"bob", "data1", "read"}}
 	G := [][]string{{"alice", "admin"}, {"bob", "admin"}}
 	mkAlpha := func(per string) []EOp {
@@ -98,6 +100,11 @@ func runC19(c *Ctx) {
 				s2.D, s2.E, s2.A = d2.D, d2.E, d2.A
 				// the second fresh replica has a dispatcher attached (as every replica of a real cluster has):
 				// *Self calls apply locally all the same and hand nothing back to it
+				// the first fresh replica was given its role manager by SetRoleManager (on the empty policy, no
+				// rebuild after it): the links the log adds must still be the links Enforce reads
+				if rep == 0 {
+					s2.E.SetRoleManager(defaultrolemanager.NewRoleManagerImpl(10))
+				}
 				var disp *nopDispatcher
 				if rep == 1 {
 					disp = &nopDispatcher{}
@@ -155,6 +162,7 @@ func runC19(c *Ctx) {
 		runLog(idx)
 		c.Count("random_logs", 1)
 	}
+	c19SubjectPriorityReplica(c)
 }
 
 func pickOps(alpha []EOp, idx []int) []EOp {
@@ -163,4 +171,75 @@ func pickOps(alpha []EOp, idx []int) []EOp {
 		out[i] = alpha[j]
 	}
 	return out
+}
+
+// c19SubjectPriorityReplica: a replica whose policy was loaded under subject priority (the load re-orders the
+// rules): the Self operations must still find every rule by value.  Implementation only.
+func c19SubjectPriorityReplica(c *Ctx) {
+	msS := NewMSpec().AddR("r", "sub", "obj", "act").AddP("p", "sub", "obj", "act", "eft").AddG("g", 2).
+		AddE("e", "subjectPriority(p_eft) || deny").AddM("m", "r", "p", And(G2("g", RTok(0), PTok(0)), Eq(RTok(1), PTok(1)), Eq(RTok(2), PTok(2))))
+	PS := [][]string{{"root", "data1", "read", "deny"}, {"admin", "data1", "read", "deny"}, {"alice", "data1", "read", "allow"}, {"admin", "data2", "write", "allow"}}
+	has := func(pol [][]string, r []string) bool {
+		for _, x := range pol {
+			if strings.Join(x, ",") == strings.Join(r, ",") {
+				return true
+			}
+		}
+		return false
+	}
+	for target := range PS {
+		for _, kind := range []string{"remove", "update"} {
+			d := newDist(msS)
+			for _, r := range PS {
+				d.A.Lines = append(d.A.Lines, memLine("p", r...))
+			}
+			d.A.Lines = append(d.A.Lines, memLine("g", "admin", "root"), memLine("g", "alice", "admin"))
+			if err := d.D.LoadPolicy(); err != nil {
+				panic(err)
+			}
+			old := PS[target]
+			what := fmt.Sprintf("replica loaded under subject priority (stored order %v): %s of %v", PS, kind, old)
+			var want [][]string
+			switch kind {
+			case "remove":
+				aff, err := d.D.RemovePoliciesSelf(nil, "p", "p", [][]string{old})
+				if err != nil || len(aff) != 1 || strings.Join(aff[0], ",") != strings.Join(old, ",") {
+					c.Direct("RemovePoliciesSelf does not report exactly the rule it was given (which was listed)", fmt.Sprintf("%s: affected=%v err=%v", what, aff, err))
+				}
+				for _, r := range PS {
+					if strings.Join(r, ",") != strings.Join(old, ",") {
+						want = append(want, r)
+					}
+				}
+				again, _ := d.D.RemovePoliciesSelf(nil, "p", "p", [][]string{old})
+				if len(again) != 0 {
+					c.Direct("applying the same Self operation a second time reports affected rules", fmt.Sprintf("%s: second result=%v", what, again))
+				}
+			case "update":
+				nw := []string{old[0], old[1], "list", old[3]}
+				ok, err := d.D.UpdatePolicySelf(nil, "p", "p", old, nw)
+				if err != nil || !ok {
+					c.Direct("UpdatePolicySelf of a listed rule reports no change", fmt.Sprintf("%s: %v %v", what, ok, err))
+				}
+				for _, r := range PS {
+					if strings.Join(r, ",") != strings.Join(old, ",") {
+						want = append(want, r)
+					}
+				}
+				want = append(want, nw)
+			}
+			pol, _ := d.E.GetPolicy()
+			bad := len(pol) != len(want)
+			for _, r := range want {
+				if !has(pol, r) {
+					bad = true
+				}
+			}
+			if bad {
+				c.Direct("a Self operation changed other rules than the ones it was given", fmt.Sprintf("%s: listed afterwards %v, expected (as a set) %v", what, pol, want))
+			}
+			c.Evals++
+			c.Count("subject_priority_replica_cases", 1)
+		}
+	}
 }
